@@ -424,6 +424,16 @@ func evalOp(t *Term, arg func(int) uint64) (uint64, bool) {
 		return b2u(f(0) >= f(1)), true
 	case "fp.eq":
 		return b2u(f(0) == f(1)), true
+	case "fp.rti_rtz":
+		return fb(math.Trunc(f(0))), true
+	case "fp.rti_rtn":
+		return fb(math.Floor(f(0))), true
+	case "fp.rti_rtp":
+		return fb(math.Ceil(f(0))), true
+	case "fp.rti_rna":
+		return fb(math.Round(f(0))), true
+	case "fp.sqrt":
+		return fb(math.Sqrt(f(0))), true
 	case "fp.isNaN":
 		return b2u(math.IsNaN(f(0))), true
 	case "fp.isInfinite":
@@ -558,6 +568,16 @@ func opSMT(t *Term, a []string) string {
 		return fmt.Sprintf("((_ %s %d) %s)", t.op, t.p1, j)
 	case "fp.add", "fp.sub", "fp.mul", "fp.div":
 		return fmt.Sprintf("(%s RNE %s)", t.op, j)
+	case "fp.rti_rtz":
+		return fmt.Sprintf("(fp.roundToIntegral RTZ %s)", j)
+	case "fp.rti_rtn":
+		return fmt.Sprintf("(fp.roundToIntegral RTN %s)", j)
+	case "fp.rti_rtp":
+		return fmt.Sprintf("(fp.roundToIntegral RTP %s)", j)
+	case "fp.rti_rna":
+		return fmt.Sprintf("(fp.roundToIntegral RNA %s)", j)
+	case "fp.sqrt":
+		return fmt.Sprintf("(fp.sqrt RNE %s)", j)
 	case "to_fp_s":
 		return fmt.Sprintf("((_ to_fp 11 53) RNE %s)", j)
 	case "to_fp_u":
